@@ -81,11 +81,28 @@ def make_loss(spec):
         return GslDivLoss(nb_values=3, nb_word_lengths=2)
     if kind == "likelihood":
         return LikelihoodLoss()
+    if kind == "neg_minkowski":   # a user-defined loss that is a score to maximise, negated: losses far below zero are legal
+        return _negated_minkowski()(p=2)
     if kind == "minkowski_filtered":
         from black_it.utils.time_series import diff_log_demean_filter  # noqa: F401
 
         return MinkowskiLoss(p=2, coordinate_weights=np.array([0.3, 0.7]), coordinate_filters=[_halve, None])
     raise ValueError(kind)
+
+
+_NEG = []
+
+
+def _negated_minkowski():
+    if not _NEG:
+        from black_it.loss_functions.minkowski import MinkowskiLoss
+
+        class NegatedMinkowski(MinkowskiLoss):
+            def compute_loss_1d(self, sim_data_ensemble, real_data):
+                return -super().compute_loss_1d(sim_data_ensemble, real_data)
+
+        _NEG.append(NegatedMinkowski)
+    return _NEG[0]
 
 
 def _halve(x):
